@@ -5,6 +5,7 @@ import Matreex.Model.Swap
 import Matreex.Lemmas.Bridge
 import Matreex.Lemmas.Matrix
 import Matreex.Props.C04
+import Matreex.Gen.OrderDispatch
 
 namespace Matreex.C10
 open Matreex
@@ -333,6 +334,13 @@ theorem swapElems_err_first (m : Matrix α) (e : Error) (rj : M (Except Error Na
 theorem swapElems_err_second (m : Matrix α) (x : Nat) (e : Error) :
     m.swapElems (.ok (.ok x)) (.ok (.error e)) = .ok (.error e, m) := by
   simp [Matrix.swapElems, bind, Except.bind, pure, Except.pure]
+
+/-- Tie T1 (re-extracted from src/swap.rs on every run): `swap_rows` exchanges major-axis vectors of
+a row-major and minor-axis vectors of a column-major matrix, `swap_cols` the other way round -/
+theorem swap_dispatch_duality :
+    (Gen.orderDispatch.filter (·.1 == "swap.rs")).map (fun r => (r.2.1, r.2.2.1, r.2.2.2.1, r.2.2.2.2)) =
+      [("swap_rows", "major", "minor", "self.swap_{axis}_axis_vectors(m, n)"),
+       ("swap_cols", "minor", "major", "self.swap_{axis}_axis_vectors(m, n)")] := by decide
 
 /-! ### non-vacuity -/
 
